@@ -70,10 +70,13 @@ def grammar_judge(chk, lang, verdict, fails, why, where='', counter=''):
 # what each finding class predicts to fail (a failure of another kind on a case of the class is NEW)
 # (C10-scala-package-brace - `}` without opener under a dotless Scala package - was repaired in /repo: no entry, nothing is
 #  suppressed; its witness stays in WITNESSES below and must pass, dotless packages stay in configs(): a regression is a violation)
+# (C10-python-generic-alias - `Name[T] = List[T]`, a subscript assignment to an unbound name - was repaired in /repo (the alias is
+#  the plain assignment `Name = List[T]` and T is declared as a TypeVar): no entry; a 'py-grammar' complaint (assignment to a
+#  Subscript) or an import failure at such a statement ('py-import-at-generic-alias') is a plain violation again; the witness stays
+#  in WITNESSES with label None and must pass every judgement, the import of the module included)
 PREDICTS = {
     'C10-scala-default': {'scala-default'},
     'C10-swift-label': {'swift-label', 'sw-grammar'},
-    'C10-python-generic-alias': {'py-grammar', 'py-import-at-generic-alias'},
     'C10-python-empty-union': {'py-syntax'},
     'C10-python-digit-name': {'py-syntax', 'identifier', 'template'},
     'C10-digit-name': {'identifier', 'template', 'ts-grammar', 'go-grammar', 'kt-grammar', 'sw-grammar'},
@@ -240,7 +243,7 @@ def python_verdict(text):
         import traceback
         lines = [fr.lineno for fr in traceback.extract_tb(e.__traceback__) if fr.filename == '<generated>']
         sub = {n.lineno for n in tree.body if isinstance(n, ast.Assign) and any(isinstance(t, ast.Subscript) for t in n.targets)}
-        # a failure raised BY a `Name[T] = ..` statement is the generic-alias defect itself, not a second one
+        # a failure raised BY a `Name[T] = ..` statement (the repaired generic-alias defect) keeps a kind of its own in the report
         if isinstance(e, TypeError) and 'already defined as' in str(e):
             # two variants whose <Enum>Types member names collide (fooBar / foo_bar -> FOO_BAR): a naming collision
             # (C02's subject), not syntax; the import stops here, so later statements are not executed: counted
@@ -685,7 +688,9 @@ WITNESSES = [
     ('scala', {'package': 'p'}, '#[typeshare]\npub type Al = Vec<u32>;\n#[typeshare]\npub struct A { pub x: u8 }\n#[typeshare]\npub enum E { U, V }\n', None),
     ('scala', {'package': 'com.x'}, '#[typeshare]\npub struct A { #[serde(default)] pub x: String }\n', 'C10-scala-default'),
     ('swift', {}, '#[typeshare]\npub struct A { pub r#let: String, pub inout: u8 }\n', 'C10-swift-label'),
-    ('python', {}, '#[typeshare]\npub type A<T> = Vec<T>;\n', 'C10-python-generic-alias'),
+    ('python', {}, '#[typeshare]\npub type A<T> = Vec<T>;\n', None),
+    ('python', {}, '#[typeshare]\npub type A<T> = Vec<T>;\n#[typeshare]\npub type B<K> = HashMap<String, Vec<K>>;\n#[typeshare]\npub struct S<T> { pub a: A<T>, pub b: B<u8> }\n'
+                   '#[typeshare]\npub type C = A<u8>;\n', None),
     ('kotlin', {'package': 'com.x'}, '#[typeshare]\npub struct S { #[serde(rename = "1st")] pub first: u8 }\n', 'C10-digit-name'),
     ('typescript', {}, '#[typeshare]\npub struct S { #[serde(rename = "1st")] pub first: u8, #[serde(rename = "2-fa")] pub two: u8 }\n', 'C10-digit-name'),
     ('go', {'package': 'p'}, '#[typeshare]\npub struct S { pub _1x: u8 }\n', 'C10-digit-name'),
@@ -705,7 +710,7 @@ def lex_expectations(chk):
     texts = [open(f, encoding='utf-8').read() for _, f in files]
     ans = vf.model([f'(c10_lex {l} {S(t)})' for (l, _), t in zip(files, texts)])
     gra = grammar_verdicts((l, t) for (l, _), t in zip(files, texts))
-    blame = {'scala-default': 'C10-scala-default', 'py-grammar': 'C10-python-generic-alias'}
+    blame = {'scala-default': 'C10-scala-default'}
     for (lang, f), t, a, gv in zip(files, texts, ans, gra):
         chk.count('expectation_files')
         decls, labels, fails, why = observe(lang, t)
@@ -745,8 +750,8 @@ def run(chk):
     rng = chk.rng
     cfgs = configs(vf.core_version())
     drift = []
-    # 1. one witness per finding class (and the witnesses of the repaired class, which must pass), against the real code
-    wcases = [(l, c, s, {'witness': k or 'fixed:C10-scala-package-brace'}) for l, c, s, k in WITNESSES]
+    # 1. one witness per finding class (and the witnesses of the repaired classes, which must pass), against the real code
+    wcases = [(l, c, s, {'witness': k or ('fixed:C10-python-generic-alias' if l == 'python' else 'fixed:C10-scala-package-brace')}) for l, c, s, k in WITNESSES]
     good0 = chk.counters.get('good', 0)
     drift += judge(chk, wcases, 'witness')
     fixed_w = sum(1 for w in WITNESSES if w[3] is None)
@@ -754,7 +759,7 @@ def run(chk):
     if chk.counters['fixed_witnesses_passing'] != fixed_w and not chk.violations:
         # judge() reports a failing / classified witness itself; this catches the one it would skip (no output, outside dom)
         chk.violation('witness-fixed', {'expected': fixed_w, 'passing': chk.counters['fixed_witnesses_passing']},
-                      'a witness of the repaired class C10-scala-package-brace is no longer generated, inside dom_C10, in no class and well-formed', no_input=True)
+                      'a witness of a repaired class (C10-scala-package-brace, C10-python-generic-alias) is no longer generated, inside dom_C10, in no class and well-formed', no_input=True)
     # 1b. the class that only the IR can reach (the parser rejects tag/content on an enum without data variants)
     empty = {'kind': 'enum', 'algebraic': True, 'tag': 't', 'content': 'c', 'id': ir.mk_id('E'), 'generics': [], 'comments': [], 'variants': [],
              'decorators': [], 'is_recursive': False, 'is_redacted': False}
